@@ -15,11 +15,48 @@ TYPES = ['Length', 'Mass', 'Duration', 'Area', 'Volume', 'Speed', 'Acceleration'
          'Frequency', 'DataVolume', 'DataThroughput']
 
 
+def gen_derived():
+    """derived.rs for the replay binary: one arm per declared derivation form (from the current declarations)"""
+    import decls
+    import units as U
+    dm = decls.catalogue()
+    d = os.path.join(BUILD, 'replay-gen')
+    os.makedirs(d, exist_ok=True)
+    arms = ''
+    path = lambda n: 'AmountT' if n == 'AmountT' else f'quantities::{dm[n].module}::{n}'
+    for a, op, b, r in U.derived_forms(dm):
+        sym = '*' if op == 'Mul' else '/'
+
+        def mk(n, nm, am, ix):
+            if n == 'AmountT':
+                return f'let {nm}: AmountT = {am};'
+            return f'let {nm} = {path(n)}::new({am}, units::<{path(n)}>()[{ix}]);'
+
+        def sc(n, nm):
+            return 'AMNT_ONE' if n == 'AmountT' else f'{nm}.unit().scale()'
+        if r == 'AmountT':
+            res = 'let (ru, rs, ra) = (0usize, AMNT_ONE, r);'
+            same = 'let same = show(r) == show(&p {S} q) && show(r) == show(p {S} &q) && show(r) == show(&p {S} &q);'.replace('{S}', sym)
+        else:
+            res = f'let ru = units::<{path(r)}>().iter().position(|w| *w == r.unit()).unwrap(); let (rs, ra) = (r.unit().scale(), r.amount());'
+            same = ('let f = |x: ' + path(r) + '| (x.unit(), show(x.amount())); let same = f(r) == f(&p {S} q) && f(r) == f(p {S} &q) && f(r) == f(&p {S} &q);').replace('{S}', sym)
+        arms += (f'        "{a}{sym}{b}" => {{ {mk(a, "p", "x", "ui")} {mk(b, "q", "y", "vi")} let r = p {sym} q; {res} {same}\n'
+                 f'            println!("derived {a}{sym}{b} {r} {{}} {{}} {{}} {{}} sa={{}} sb={{}} ru={{}} rs={{}} ra={{}} forms_same={{}}", ui, show(x), vi, show(y), show({sc(a, "p")}), show({sc(b, "q")}), ru, show(rs), show(ra), same); }}\n')
+    text = ('// GENERATED from the current declarations by tools/replay_grid.py\nuse quantities::AMNT_ONE;\n'
+            'fn derived(name: &str, args: &[String]) {\n    let (ui, x, vi, y): (usize, AmountT, usize, AmountT) = (args[0].parse().unwrap(), parse_amnt(&args[1]), args[2].parse().unwrap(), parse_amnt(&args[3]));\n'
+            '    match name {\n' + arms + '        other => panic!("unknown derivation {}", other),\n    }\n}\n')
+    p = os.path.join(d, 'derived.rs')
+    if not os.path.exists(p) or open(p).read() != text:
+        open(p, 'w').write(text)
+    return d
+
+
 def build(cfg='f64'):
+    gen = gen_derived()
     tgt = os.path.join(BUILD, f'replay-{cfg}')
     cmd = ['cargo', 'build', '--release', '--offline', '--target-dir', tgt]
     cmd += ['--features', 'dec' if cfg == 'dec' else 'astro']
-    rc, out, err, _ = run(cmd, cwd=os.path.join(VERIF, 'replay'), timeout=900)
+    rc, out, err, _ = run(cmd, cwd=os.path.join(VERIF, 'replay'), timeout=900, env={'QREPLAY_GEN': gen})
     if rc != 0:
         raise RuntimeError('replay crate does not build: ' + err[-1500:])
     return os.path.join(tgt, 'release', 'qreplay')
@@ -180,6 +217,8 @@ def c07_replay(failure):
 def search(prop, failure, seed, types=None, limit=None):
     if prop == 'C07':
         return c07_replay(failure)
+    if prop in ('C04', 'C05', 'C08', 'C10', 'C13'):
+        return search_ops(prop, failure, seed)
     if prop not in ('C01', 'C02', 'C03'):
         return None
     exe = build('f64')
@@ -215,5 +254,232 @@ def known_still_fails(kf):
     return judge(kf['property'], parse_line(out.strip().split('\n')[0])) is not None
 
 
+# ---------------- derived / scalar / rate / no-reference-unit replays (f64) ----------------
+def kv(line):
+    f = line.split()
+    d = {'_': f}
+    for x in f:
+        if '=' in x:
+            k, v = x.split('=', 1)
+            d[k] = v
+    return d
+
+
+def unit_tables(exe, names):
+    rc, out, err, _ = run([exe, '-'], stdin=''.join(f'units {n}\n' for n in names))
+    tabs = {}
+    for line in out.split('\n'):
+        f = line.split()
+        if len(f) >= 6:
+            tabs.setdefault(f[0], []).append({'name': f[2], 'scale': unbits(f[3]), 'si': f[-1] == 'si=true'})
+    return tabs
+
+
+AMTS = [3.0, 0.7, -2.5, 1.0, 1e-3, 250.0, 0.0, 12.0, 1e6]
+
+
+def fdiv(a, b):
+    try:
+        return a / b
+    except ZeroDivisionError:
+        if a == 0 or a != a:
+            return float('nan')
+        return math.copysign(float('inf'), a) * math.copysign(1.0, b)
+
+
+def judge_derived(prop, d, tabs):
+    f = d['_']
+    form, R = f[1], f[2]
+    op = '*' if '*' in form else '/'
+    a, b = unbits(f[4]), unbits(f[6])
+    sa, sb, rs, ra = (unbits(d[k]) for k in ('sa', 'sb', 'rs', 'ra'))
+    if d['forms_same'] != 'true':
+        return 'owned and borrowed operand forms give different results'
+    vals = (a, b, sa, sb, rs, ra)
+    if any(math.isnan(v) or math.isinf(v) for v in vals):
+        return None
+    if prop == 'C04':
+        if op == '/' and b == 0:
+            return None
+        M = (Fraction(a) * Fraction(sa)) * (Fraction(b) * Fraction(sb)) if op == '*' else (Fraction(a) * Fraction(sa)) / (Fraction(b) * Fraction(sb))
+        got = Fraction(ra) * Fraction(rs)
+        if abs(got - M) > 32 * U * abs(M) and abs(M) > Fraction(1, 10 ** 280):
+            return f'result magnitude {float(got)!r} differs from the exact {"product" if op == "*" else "quotient"} {float(M)!r} of the operand magnitudes beyond rounding'
+        return None
+    # C05
+    ru = int(d['ru'])
+    if R == 'AmountT':
+        return None
+    table = tabs[R]
+    sc = sa * sb if op == '*' else fdiv(sa, sb)
+    amt = a * b if op == '*' else fdiv(a, b)
+    if math.isnan(amt) or math.isinf(amt):
+        return None
+    if sa == 1.0 and sb == 1.0:
+        ref = next(i for i, u in enumerate(table) if u['scale'] == 1.0)
+        if ru != ref:
+            return f'operands in reference units but the result unit is {table[ru]["name"]}'
+    if any(u['scale'] == sc for u in table):
+        if table[ru]['scale'] != sc:
+            return f'a unit with the combined scale {sc!r} exists but the result uses {table[ru]["name"]}'
+        if bits(ra) != bits(amt):
+            return f'natural unit: amount {ra!r} is not the amount type\'s own {"product" if op == "*" else "quotient"} {amt!r}'
+        return None
+    x = amt * sc
+    if math.isnan(x) or math.isinf(x):
+        return None
+    ref_si = next(u for u in table if u['scale'] == 1.0)['si']
+    elig = [u for u in table if (u['si'] or not ref_si)]
+    cand = [u['scale'] for u in elig if u['scale'] <= x]
+    want = max(cand) if cand else min(u['scale'] for u in elig)
+    if table[ru]['scale'] != want or (ref_si and not table[ru]['si']):
+        return f'fitted unit {table[ru]["name"]} (scale {table[ru]["scale"]!r}) but the largest eligible unit not exceeding the magnitude {x!r} has scale {want!r}'
+    return None
+
+
+def judge_scalar(d):
+    f = d['_']
+    a, k = unbits(f[3]), unbits(f[4])
+    for key in ('new_ok', 'axu_ok', 'uxa_ok', 'kxq_ok', 'qxk_ok', 'qdk_ok'):
+        if d[key] != 'true':
+            return f'{key[:-3]}: the unit is not preserved'
+    for key in ('new', 'axu', 'uxa'):
+        if d[key] != f[3]:
+            return f'{key}: stored amount {unbits(d[key])!r} is not the given amount {a!r}'
+    if math.isnan(a) or math.isnan(k):
+        return None
+    if d['kxq'] != bits(k * a) or d['qxk'] != bits(a * k):
+        return f'number x value: {unbits(d["kxq"])!r} / {unbits(d["qxk"])!r} is not the amount type\'s own product {a * k!r}'
+    if k != 0 and d['qdk'] != bits(a / k):
+        return f'value / number: {unbits(d["qdk"])!r} is not the amount type\'s own quotient {a / k!r}'
+    return None
+
+
+def judge_rate(d, job, tabs):
+    j = job.split()
+    X = j[1]
+    ti, ta, pm, pi, vi, b, mi, m = int(j[2]), unbits(j[3]), unbits(j[4]), int(j[5]), int(j[6]), unbits(j[7]), int(j[8]), unbits(j[9])
+    if d['comps_ok'] != 'true' or d['ta1'] != j[3] or d['pm1'] != j[4] or d['ta2'] != j[3] or d['pm2'] != j[4]:
+        return 'a rate does not report the four components it was built from'
+    if d['recip_ok'] != 'true' or d['rta'] != j[4] or d['rpm'] != j[3] or d['rrta'] != j[3] or d['rrpm'] != j[4]:
+        return 'reciprocal does not swap the components / applied twice does not give the original'
+    if d['r1_unit_ok'] != 'true' or d['r2_unit_ok'] != 'true':
+        return 'rate x value is not in the term unit'
+    sx, st = [u['scale'] for u in tabs[X]], [u['scale'] for u in tabs['Mass']]
+    if pm == 0 or ta == 0:
+        return None
+    want = Fraction(ta) * (Fraction(b) * Fraction(sx[vi]) / (Fraction(pm) * Fraction(sx[pi])))
+    for key in ('r1', 'r2'):
+        got = Fraction(unbits(d[key]))
+        if abs(got - want) > 32 * U * abs(want):
+            return f'{"rate x value" if key == "r1" else "value x rate"} = {float(got)!r}, expected term amount x (value / per value) = {float(want)!r}'
+    if int(d['r3_unit']) != pi or int(d['r4_unit']) != pi:
+        return 'value / rate is not in the per unit'
+    want3 = Fraction(pm) * (Fraction(m) * Fraction(st[mi]) / (Fraction(ta) * Fraction(st[ti])))
+    for key in ('r3', 'r4'):
+        got = Fraction(unbits(d[key]))
+        if abs(got - want3) > 32 * U * abs(want3):
+            return f'{"value / rate" if key == "r3" else "value x reciprocal"} = {float(got)!r}, expected per amount x (value / term value) = {float(want3)!r}'
+    return None
+
+
+def judge_noref(d):
+    f = d['_']
+    ui, a, vi, b = int(f[2]), unbits(f[3]), int(f[4]), unbits(f[5])
+    if ui != vi:
+        if d['eq'] != 'false' or d['ne'] != 'true':
+            return 'values in different units compare equal'
+        if d['cmp'] != 'None' or 'true' in (d['lt'], d['le'], d['gt'], d['ge']):
+            return 'values in different units are ordered'
+        for op in ('add', 'sub', 'div'):
+            if d[op] != 'panic':
+                return f'{op} of values in different units returned {d[op]} instead of panicking'
+        return None
+    if (d['eq'] == 'true') != (a == b):
+        return 'same unit: == differs from the amounts\' =='
+    want = {'add': f'{ui}:{bits(a + b)}', 'sub': f'{ui}:{bits(a - b)}'}
+    for op in ('add', 'sub'):
+        if d[op] != want[op]:
+            return f'same unit: {op} gives {d[op]}, expected {want[op]}'
+    if b != 0 and d['div'] != bits(a / b):
+        return 'same unit: / differs from the amounts\' /'
+    return None
+
+
+def search_ops(prop, failure, seed):
+    import decls
+    import units as UN
+    exe = build('f64')
+    dm = decls.catalogue()
+    names = [n for n in dm]
+    tabs = unit_tables(exe, [n for n in names if dm[n].ref is not None])
+    rnd = random.Random(seed)
+    jobs = []
+    if prop in ('C04', 'C05'):
+        for a, op, b, r in UN.derived_forms(dm):
+            na = len(dm[a].units) if a != 'AmountT' else 1
+            nb = len(dm[b].units) if b != 'AmountT' else 1
+            sym = '*' if op == 'Mul' else '/'
+            for ui in range(na):
+                for vi in range(nb):
+                    amts = [(3.0, 0.7), (-2.5, 4.0), (1.0, 1.0), (250.0, 1e-3), (rnd.uniform(0.1, 50), rnd.uniform(0.1, 50))]
+                    if prop == 'C05' and r != 'AmountT':
+                        # magnitudes exactly on a unit boundary of the result type
+                        for u in tabs[r][:6]:
+                            amts.append((u['scale'], 1.0))
+                    for x, y in amts:
+                        jobs.append(f'derived {a}{sym}{b} {ui} {bits(x)} {vi} {bits(y)}')
+    elif prop == 'C08':
+        for n in names:
+            for ui in range(len(dm[n].units)):
+                for a in AMTS + [-0.0, float('inf'), 5.0, 49.0, 1e-300]:
+                    for k in (3.0, 0.1, -7.0, 1.0, 10.0, 49.0, 1e-310, -1.0, 0.0):
+                        jobs.append(f'scalar {n} {ui} {bits(a)} {bits(k)}')
+    elif prop == 'C13':
+        nt = len(dm['Mass'].units)
+        for n in names:
+            if dm[n].ref is None:
+                continue
+            nx = len(dm[n].units)
+            for _ in range(60):
+                ti, pi, vi, mi = rnd.randrange(nt), rnd.randrange(nx), rnd.randrange(nx), rnd.randrange(nt)
+                if rnd.random() < 0.4:
+                    vi = pi
+                ta = rnd.choice([1.0, 30.0, 2.5, 7.0])
+                pm = rnd.choice([1.0, 4.0, 100.0, 0.5])
+                jobs.append(f'rate {n} {ti} {bits(ta)} {bits(pm)} {pi} {vi} {bits(rnd.choice([8.0, 3.0, 0.25, 12.5]))} {mi} {bits(rnd.choice([6.0, 1.5, 40.0]))}')
+    elif prop == 'C10':
+        n = len(dm['Temperature'].units)
+        for ui in range(n):
+            for vi in range(n):
+                for a in (3.0, 0.0, -0.0, -2.0, 17.5, float('nan')):
+                    for b in (5.0, 0.0, 3.0, -2.0):
+                        jobs.append(f'noref Temperature {ui} {bits(a)} {vi} {bits(b)}')
+    else:
+        return None
+    rc, out, err, _ = run([exe, '-'], stdin='\n'.join(jobs) + '\n', timeout=900)
+    lines = [l for l in out.split('\n') if l.strip()]
+    for idx, line in enumerate(lines):
+        d = kv(line)
+        kind = d['_'][0]
+        if kind == 'derived':
+            why = judge_derived(prop, d, tabs)
+        elif kind == 'scalar':
+            why = judge_scalar(d)
+        elif kind == 'rate':
+            why = judge_rate(d, jobs[idx], tabs) if idx < len(jobs) else None
+        elif kind == 'noref':
+            why = judge_noref(d)
+        else:
+            why = None
+        if why:
+            job = jobs[idx] if idx < len(jobs) else ''
+            return {'config': 'f64', 'job': job, 'observed': line, 'what_fails': why, 'cmd': f'{exe} {job}', 'inputs_tried_before': idx,
+                    'note': 'amounts are binary64 bit patterns; unit arguments are indices into the type\'s iteration order'}
+    return None
+
+
 if __name__ == '__main__':
     print(search(sys.argv[1], {}, 0))
+
+
